@@ -564,3 +564,29 @@ package security
 //@   requires given: a.stream != nil && authData != nil
 //@   assert before call Authenticator).verifyTokenMAC #1 server_proof_checked_against_own_values: [C11] ref(arg1) == ref(authData.SharedKeyK) && arg2 == authData.ClientID && ref(arg4) == ref(authData.RA) && len(arg4) == len(authData.RA) && ref(arg6) == ref(serverMAC) && len(arg6) == len(serverMAC)
 //@   assert before call Authenticator).verifyTokenMAC #1 own_nonce_echoed: [C11] clientIDEcho == authData.ClientID
+
+// ---- claim-id sessions (C16) ----------------------------------------------------------------------
+//@ func claimExpiration (policy, fallback) (result)
+//@   props C16
+//@   assigns parseIntCount, parseIntValue, parseIntOK, clockNow
+//@   ensures embedded_expiry_wins: [C16] parseIntCount == old(parseIntCount) + 1 && parseIntOK && parseIntValue > 0 ==> instant(result.wall, result.ext) == parseIntValue * 1000000000 && clockNow == old(clockNow)
+//@   ensures fallback_otherwise: [C16] (parseIntCount == old(parseIntCount) || !parseIntOK || parseIntValue <= 0) && fallback > 0 ==> instant(result.wall, result.ext) == clockNow + fallback && clockNow >= old(clockNow)
+//@   ensures no_bound_means_no_expiry: [C16] (parseIntCount == old(parseIntCount) || !parseIntOK || parseIntValue <= 0) && fallback <= 0 ==> zeroTime(result.wall, result.ext)
+
+//@ func ImportClaimSession (cache, claimID, opts) (result, err)
+//@   props C16
+//@   assert before call NewSessionEntry #1 entry_id_from_claim: [C16] arg0 == sesid
+//@   assert before call NewSessionEntry #1 entry_key_from_claim: [C16] arg2 == keyInfo && arg2 != nil
+//@   assert before call NewSessionEntry #1 entry_policy_from_claim: [C16] arg3 == policy
+//@   assert before call NewSessionEntry #1 entry_expiry_from_claim: [C16] arg4 == expiration
+//@   assert before call SessionCache).Store #1 always_registers_the_fresh_entry: [C16] arg1 == entry && arg0 == cache
+//@   assert after call deriveClaimKeyInfo #1 key_from_claim_secret: [C16] true
+//@   assert before call deriveClaimKeyInfo #1 key_from_claim_secret_args: [C16] arg0 == policy && arg1 == secret
+//@   nocall [C16] no_shortcut_around_the_claim: SessionCache).Lookup
+//@   nocall [C16] no_shortcut_around_the_claim2: SessionCache).LookupNonExpired
+//@   ensures session_id_of_claim: [C16] err == nil ==> result == sesid && sesid != ""
+
+//@ func deriveClaimKeyInfo (policy, secret) (result, err)
+//@   props C16
+//@   ensures key_on_success: [C16] err == nil ==> result != nil && fresh(result) && result.Protocol == "AESGCM"
+//@   ensures no_key_on_failure: [C16] err != nil ==> result == nil
